@@ -11,7 +11,7 @@
 (* State records use the field names of DESIGN.md appendix A / the JSON    *)
 (* written by the harness (harness/world/abs.go).                          *)
 (***************************************************************************)
-EXTENDS Integers, Sequences, FiniteSets, TLC, AwsCore
+EXTENDS Integers, Sequences, FiniteSets, TLC, AwsCore, Clamps
 
 Never == -100000
 
@@ -270,7 +270,7 @@ ScaleUpOutcome(gs0, g, dry, now, F, N, ts, att, fleetLo, r) ==
       rest == N - u.succ
       \* scaleUpCloudProviderNodeGroup: clamp against the cached target size (fix F1: and max_nodes)
       bound == Min2(u.pc.max, u.ctl.maxEff)
-      add == IF u.pc.desired + rest > bound THEN bound - u.pc.desired ELSE rest
+      add == AddClamp(u.pc.desired, rest, bound)
   IN
   IF rest <= 0 THEN [u EXCEPT !.valid = @ /\ selOK, !.result = u.succ]
   ELSE IF add <= 0 THEN [u EXCEPT !.valid = @ /\ selOK, !.result = 0, !.uperr = TRUE]
@@ -412,7 +412,7 @@ GroupScan(gs, g, now, dryAll, F, obs) ==
        IN IF gr.ret = "notingroup" THEN [Done(gr, 0, "notingroup", "down_fatal") EXCEPT !.fatal = TRUE]
           ELSE LET r5 == [gr EXCEPT !.ret = "nil", !.ok = TRUE]
                    k0 == -nd
-                   k == IF nUnt - k0 < minEff THEN nUnt - minEff ELSE k0
+                   k == TaintCount(nUnt, k0, minEff)
                    created == CreatedOf(gs)
                    failAll == IF dry THEN {} ELSE {n \in SeqToSet(unt) : GetFails(F, r5.api, n) \/ (~r5.api[n].taint.has /\ Failing(F, "update", n))}
                    r6 == [r5 EXCEPT !.sel = [dir |-> 1, cands |-> SeqToSet(unt), k |-> k, fails |-> failAll]]
